@@ -76,7 +76,7 @@ def NodeOk (s : SchemaD) (doc : Doc) (vars : Vars) (F : FSet) (rt : String) (n :
 
 def GroupOk (P : FNode → Prop) (g : Grouped) : Prop := ∀ kv ∈ g, kv.2 ≠ [] ∧ ∀ n ∈ kv.2, P n
 
-private theorem extend_groupOk (P : FNode → Prop) (g : Grouped) (k : String) (ns : List FNode) (hg : GroupOk P g)
+theorem extend_groupOk (P : FNode → Prop) (g : Grouped) (k : String) (ns : List FNode) (hg : GroupOk P g)
     (hne : ns ≠ []) (hn : ∀ n ∈ ns, P n) : GroupOk P (g.extend k ns) := by
   induction g with
   | nil => intro kv hkv; simp [Grouped.extend] at hkv; subst hkv; exact ⟨hne, hn⟩
@@ -104,7 +104,7 @@ private theorem extend_groupOk (P : FNode → Prop) (g : Grouped) (k : String) (
       · exact hg (k', ms) (by simp)
       · exact ih (fun kv hkv => hg kv (by simp [hkv])) kv hkv
 
-private theorem mergeInto_groupOk (P : FNode → Prop) (src into : Grouped) (hs : GroupOk P src) (hi : GroupOk P into) :
+theorem mergeInto_groupOk (P : FNode → Prop) (src into : Grouped) (hs : GroupOk P src) (hi : GroupOk P into) :
     GroupOk P (src.mergeInto into) := by
   unfold Grouped.mergeInto
   induction src generalizing into with
@@ -113,7 +113,7 @@ private theorem mergeInto_groupOk (P : FNode → Prop) (src into : Grouped) (hs 
     simp only [List.foldl_cons]
     exact ih _ (fun kv' hkv => hs kv' (by simp [hkv])) (extend_groupOk P _ _ _ hi (hs kv (by simp)).1 (hs kv (by simp)).2)
 
-private theorem fieldOf_name (s : SchemaD) (T f : String) (fd : FieldD) (h : fieldOf s T f = some fd) : fd.name = f := by
+theorem fieldOf_name (s : SchemaD) (T f : String) (fd : FieldD) (h : fieldOf s T f = some fd) : fd.name = f := by
   unfold fieldOf at h
   cases hft : s.findType T with
   | none => simp [hft] at h
@@ -122,7 +122,7 @@ private theorem fieldOf_name (s : SchemaD) (T f : String) (fd : FieldD) (h : fie
     have hk := List.find?_some h
     simpa using hk
 
-private theorem selsOk_forall (s : SchemaD) (doc : Doc) (vars : Vars) (T : String) :
+theorem selsOk_forall (s : SchemaD) (doc : Doc) (vars : Vars) (T : String) :
     ∀ sels, selsOk s doc vars T sels = true → ∀ sel ∈ sels, selOk s doc vars T sel = true := by
   intro sels
   induction sels with
@@ -146,7 +146,7 @@ private theorem selsFields_mem (sels : List Sel) : ∀ sel ∈ sels, ∀ x ∈ s
     · exact Or.inl hx
     · exact Or.inr (ih sel hm x hx)
 
-private theorem dirIf_ok (vars : Vars) (dirs : List Dir) (name : String) (hn : name = "skip" ∨ name = "include")
+theorem dirIf_ok (vars : Vars) (dirs : List Dir) (name : String) (hn : name = "skip" ∨ name = "include")
     (h : dirsOk vars dirs = true) : ∃ r, dirIf vars dirs name = .ok r := by
   unfold dirIf
   cases hf : dirs.find? (·.name == name) with
@@ -170,13 +170,13 @@ private theorem dirIf_ok (vars : Vars) (dirs : List Dir) (name : String) (hn : n
       | some j => exact ⟨some (truthy j), by simp [hc, hv]⟩
     | bad => simp [hc] at hd
 
-private theorem skipSelection_ok (vars : Vars) (dirs : List Dir) (h : dirsOk vars dirs = true) :
+theorem skipSelection_ok (vars : Vars) (dirs : List Dir) (h : dirsOk vars dirs = true) :
     ∃ b, skipSelection vars dirs = .ok b := by
   obtain ⟨a, ha⟩ := dirIf_ok vars dirs "skip" (Or.inl rfl) h
   obtain ⟨b, hb⟩ := dirIf_ok vars dirs "include" (Or.inr rfl) h
   exact ⟨(a.getD false || !b.getD true), by simp [skipSelection, ha, hb, bind, Except.bind, pure, Except.pure]⟩
 
-private theorem applies_ok (s : SchemaD) (obj c : String) (h : isComposite s c = true) :
+theorem applies_ok (s : SchemaD) (obj c : String) (h : isComposite s c = true) :
     ∃ b, fragmentTypeApplies s obj (some c) = .ok b ∧ (b = true → Under s obj c) := by
   unfold isComposite at h
   cases hk : kindOf s c with
@@ -189,7 +189,7 @@ private theorem applies_ok (s : SchemaD) (obj c : String) (h : isComposite s c =
     · exact Or.inl hb.symm
     · exact Or.inr hb.2
 
-private theorem fragment_ok (s : SchemaD) (doc : Doc) (vars : Vars) (hf : fragsOk s doc vars = true) (name : String) (fr : Frag)
+theorem fragment_ok (s : SchemaD) (doc : Doc) (vars : Vars) (hf : fragsOk s doc vars = true) (name : String) (fr : Frag)
     (h : doc.fragment? name = some fr) :
     isComposite s fr.on = true ∧ selsOk s doc vars fr.on fr.sels = true ∧ ∀ x ∈ selsFields fr.sels, x ∈ docFields doc := by
   unfold Doc.fragment? at h
@@ -348,7 +348,7 @@ private theorem collect_sound (s : SchemaD) (doc : Doc) (vars : Vars) (hf : frag
 
 /-! ### complete_value -/
 
-private theorem completeList_noInt (f : Path → RVal → R (Data × List Err)) (P : RVal → Prop)
+theorem completeList_noInt (f : Path → RVal → R (Data × List Err)) (P : RVal → Prop)
     (hf : ∀ p v, P v → NoInt (f p v)) (path : Path) :
     ∀ (vs : List RVal) (i : Nat), (∀ v ∈ vs, P v) → NoInt (completeList f path i vs) := by
   intro vs
@@ -369,7 +369,7 @@ private theorem completeList_noInt (f : Path → RVal → R (Data × List Err)) 
         exact ih (i + 1) (fun v hv => hp v (by simp [hv])) cls (by rw [h2, h])
       | ok p2 => simp [h2] at h
 
-private theorem completeValue_noInt (s : SchemaD) (execSub : String → Path → List Sel → R (Data × List Err)) (nodes : List FNode) :
+theorem completeValue_noInt (s : SchemaD) (execSub : String → Path → List Sel → R (Data × List Err)) (nodes : List FNode) :
     ∀ (t : Ty) (path : Path) (v : RVal), (∃ k, kindOf s t.base = some k ∧ k ≠ .input) → Conforms s t v = true →
       (∀ rt' p, kindOf s rt' = some .object → Under s rt' t.base → NoInt (execSub rt' p (mergedSelections nodes))) →
       NoInt (completeValue s execSub nodes t path v) := by
@@ -575,7 +575,7 @@ private theorem executeFields_noInt (s : SchemaD) (hs : SchemaOk s) (doc : Doc) 
         exact executeGroups_noInt s hs doc vars _ hF w hw _ (fun rt' p sels _ hsu' => ih rt' p sels hsu') rt path g hg hk cls (by rw [h2, h])
       | ok p2 => simp [h2] at h
 
-private theorem getOperation_mem (doc : Doc) (opname : Option String) (o : Op) (h : getOperation doc opname = some o) : o ∈ doc.ops := by
+theorem getOperation_mem (doc : Doc) (opname : Option String) (o : Op) (h : getOperation doc opname = some o) : o ∈ doc.ops := by
   unfold getOperation at h
   split at h
   · split at h
@@ -586,13 +586,14 @@ private theorem getOperation_mem (doc : Doc) (opname : Option String) (o : Op) (
     · simp at h
   · exact List.mem_of_find?_eq_some h
 
-/-- **validated_no_internal_error**: for every schema whose objects implement their interfaces covariantly and whose
+/-- **validated_no_internal_error_keyConsistent** (superseded by `Props/C05_merge.lean: validated_no_internal_error`, which assumes the
+    weaker `MergeSafe`): for every schema whose objects implement their interfaces covariantly and whose
     fields have known output types, every document satisfying the declarative `ValidDoc` and `KeyConsistent`, every
     variable assignment under which `ValidDoc` holds, every TYPED world (values of the declared types, `ResolverError`s,
     nulls anywhere), every operation name and EVERY fuel: the request never ends in an internal exception — it
     produces a response (data + field errors) or the documented operation error. (Running out of fuel is the
     separate `outOfFuel` outcome; `Props/C04_fuel.lean` shows results do not depend on the fuel once it suffices.) -/
-theorem validated_no_internal_error (s : SchemaD) (hs : SchemaOk s) (doc : Doc) (vars : Vars) (hv : ValidDoc s doc vars)
+theorem validated_no_internal_error_keyConsistent (s : SchemaD) (hs : SchemaOk s) (doc : Doc) (vars : Vars) (hv : ValidDoc s doc vars)
     (hk : keyConsistentB doc = true) (w : World) (hw : WorldTyped s w) :
     ∀ (op : Option String) (fuel cf : Nat) (cls : String), execute s doc vars w op fuel cf ≠ .failed (.internal cls) := by
   intro op fuel cf cls
